@@ -56,7 +56,7 @@ def run(pid, tier):
         mod = C.assemble(sc)
         drv = C.gobuild(mod, "drvrace", os.path.join(sc, "drvrace"), race=True, timeout=900)
         drvt = C.gobuild(mod, "drvtable", os.path.join(sc, "drvtable"))
-        jobs = [gen_job(rng, "j%d" % i, tier) for i in range(24 if tier == "quick" else 400)]
+        jobs = [gen_job(rng, "j%d" % i, tier) for i in range(24 if tier == "quick" else 160)]
         # (a) sequential answers of the same tables against the specification
         seq = CT.run_cases([table_case(j) for j in jobs], drvt, sc)
         viols, rej, vstats = S.validate(seq, sc, module="TraceTable", chunk=6, jvms=12)
